@@ -7,6 +7,8 @@ import (
 	"fmt"
 	"strings"
 
+	"seehuhn.de/go/postscript/type1/names"
+
 	"seehuhn.de/go/sfnt"
 	"seehuhn.de/go/sfnt/cff"
 	"seehuhn.de/go/sfnt/glyf"
@@ -294,6 +296,7 @@ func run(c *wk.Case) {
 					c.Fail("names-existing-lost", "MakeGlyphNames", "glyph %d had the unique name %q, MakeGlyphNames returns %q", g, nm, names[g])
 				}
 			}
+			checkInference(c, f, eff, cnt, names)
 			continue
 		}
 		for g := range ref {
@@ -381,8 +384,129 @@ func run(c *wk.Case) {
 	}
 }
 
+// checkInference judges the clause "missing names are inferred from the
+// character map (Adobe glyph-list names) or from substitution rules (variant
+// and ligature names) before falling back to numbered placeholders", in the
+// cases where the rule leaves no choice:
+//
+//   - a glyph without a name that is the image of exactly one character,
+//     whose glyph-list name nobody else has or could claim, gets that name;
+//   - a glyph without name and character that is the result of exactly one
+//     ligature rule (and of no other substitution) whose components all have
+//     existing unique names gets the component names joined by "_";
+//   - a glyph without name and character that is the target of exactly one
+//     single/alternate substitution (and of no ligature) from a glyph with an
+//     existing unique name gets a variant "<that name>.<suffix>".
+//
+// (eff: the existing names with glyph 0 = .notdef; cnt: how often each occurs.)
+func checkInference(c *wk.Case, f *sfnt.Font, eff []string, cnt map[string]int, got []string) {
+	n := len(eff)
+	existing := func(g glyph.ID) (string, bool) {
+		if int(g) >= n || eff[g] == "" || cnt[eff[g]] != 1 {
+			return "", false
+		}
+		return eff[g], true
+	}
+	runes := map[glyph.ID][]rune{}
+	if best, _ := f.CMapTable.GetBest(); best != nil {
+		lo, hi := best.CodeRange()
+		for r := lo; r <= hi; r++ {
+			if g := best.Lookup(r); g != 0 && int(g) < n {
+				runes[g] = append(runes[g], r)
+			}
+		}
+	}
+	// candidate names from the character map, to see who competes for what
+	cand := map[string]int{}
+	for _, rr := range runes {
+		for _, r := range rr {
+			cand[names.FromUnicode(string(r))]++
+		}
+	}
+	type rule struct {
+		src  []glyph.ID
+		kind int // 1 = single/alternate, 4 = ligature
+	}
+	targets := map[glyph.ID][]rule{}
+	if f.Gsub != nil {
+		for _, lt := range f.Gsub.LookupList {
+			for _, st := range lt.Subtables {
+				switch s := st.(type) {
+				case *gtab.Gsub1_1:
+					for g := range s.Cov {
+						targets[g+s.Delta] = append(targets[g+s.Delta], rule{[]glyph.ID{g}, 1})
+					}
+				case *gtab.Gsub1_2:
+					for g, i := range s.Cov {
+						to := s.SubstituteGlyphIDs[i]
+						targets[to] = append(targets[to], rule{[]glyph.ID{g}, 1})
+					}
+				case *gtab.Gsub3_1:
+					for g, i := range s.Cov {
+						for _, to := range s.Alternates[i] {
+							targets[to] = append(targets[to], rule{[]glyph.ID{g}, 1})
+						}
+					}
+				case *gtab.Gsub4_1:
+					for g, i := range s.Cov {
+						for _, lig := range s.Repl[i] {
+							targets[lig.Out] = append(targets[lig.Out], rule{append([]glyph.ID{g}, lig.In...), 4})
+						}
+					}
+				}
+			}
+		}
+	}
+	for gi := 1; gi < n; gi++ {
+		g := glyph.ID(gi)
+		if eff[g] != "" {
+			continue // has a name, or lost it as a duplicate (which copy keeps it is not specified)
+		}
+		switch rr := runes[g]; {
+		case len(rr) == 1:
+			want := names.FromUnicode(string(rr[0]))
+			if want == "" || cnt[want] > 0 || cand[want] != 1 {
+				continue
+			}
+			c.Count("inference_judged_cmap", 1)
+			if got[g] != want {
+				c.Fail("names-inference", "MakeGlyphNames/cmap", "glyph %d has no name and is the image of %U only, whose glyph-list name %q nobody else has: MakeGlyphNames returns %q", g, rr[0], want, got[g])
+			}
+		case len(rr) == 0 && len(targets[g]) == 1:
+			r := targets[g][0]
+			var parts []string
+			ok := true
+			for _, s := range r.src {
+				nm, has := existing(s)
+				if !has {
+					ok = false
+				}
+				parts = append(parts, nm)
+			}
+			if !ok {
+				continue
+			}
+			if r.kind == 4 {
+				want := strings.Join(parts, "_")
+				if cnt[want] > 0 || cand[want] > 0 {
+					continue
+				}
+				c.Count("inference_judged_ligature", 1)
+				if got[g] != want {
+					c.Fail("names-inference", "MakeGlyphNames/ligature", "glyph %d has no name and no character and is the result of one ligature rule only, with component names %q: MakeGlyphNames returns %q instead of %q", g, parts, got[g], want)
+				}
+			} else {
+				c.Count("inference_judged_variant", 1)
+				if !strings.HasPrefix(got[g], parts[0]+".") {
+					c.Fail("names-inference", "MakeGlyphNames/variant", "glyph %d has no name and no character and is the target of one substitution only, from the glyph named %q: MakeGlyphNames returns %q, which is not a variant of that name", g, parts[0], got[g])
+				}
+			}
+		}
+	}
+}
+
 func namesFor(t *tape.Tape, n, pattern int) []string {
-	base := []string{"A", "B", "C", "a", "b", "f", "i", "l", "space", "one", "f_i", "uni0416", "a.alt", "x", "Aacute", ".notdef", "A.1", "orn001", "orn002"}
+	base := []string{"A", "B", "C", "a", "b", "f", "i", "l", "space", "one", "f_i", "uni0416", "a.alt", "x", "Aacute", ".notdef", "A.1", "orn001", "orn002", "_", "a_", "_b", "x__y"}
 	names := make([]string, n)
 	for i := range names {
 		switch {
